@@ -500,6 +500,18 @@ def rate_functions_rule(repo, rep):
 # ---------------------------------------------------------------------------
 # Gillespie_simple_contagion
 # ---------------------------------------------------------------------------
+def _defs_of(fnode, recv):
+    """values assigned to the name a receiver is rooted at (so that `candidates.remove(x)` is recognised through
+    `candidates = potential_transitions[transition]`)"""
+    root = recv
+    while isinstance(root, (ast.Subscript, ast.Attribute)):
+        root = root.value
+    if not isinstance(root, ast.Name):
+        return []
+    return [n.value for n in ast.walk(fnode) if isinstance(n, ast.Assign) and len(n.targets) == 1
+            and isinstance(n.targets[0], ast.Name) and n.targets[0].id == root.id]
+
+
 def simple_contagion_rule(repo, rep):
     f = repo.f("Gillespie_simple_contagion")
     rep.analysed(f)
@@ -837,6 +849,24 @@ def simple_contagion_rule(repo, rep):
                func=f, node=st, construct="%s.update_total_weight() guard" % recv,
                detail="" if okg else "the roundoff guard %s: the clock then runs on the cancellation residue until the list is next touched" % why)
     rep.floor("RATE", "roundoff guards in the update sections", ng, 2)
+    # ... and every loop of the event section that changes candidate sets carries the guard (a copy of the loop made for
+    # directed graphs needs it as much as the original)
+    for c in walk_function(f.node):
+        st = c.stmt
+        if not (isinstance(st, ast.For) and loop in c.loops):
+            continue
+        if any(isinstance(p, ast.For) and p is not st and p in c.loops and p is not loop for p in c.loops):
+            continue                      # only the outermost loops over transitions
+        changes = [y for y in ast.walk(st) if isinstance(y, ast.Call) and isinstance(y.func, ast.Attribute)
+                   and y.func.attr in ("remove", "update", "insert") and isinstance(y.func.value, (ast.Subscript, ast.Name))
+                   and "transitions" in _key(y.func.value) + " ".join(_key(v) for v in _defs_of(f.node, y.func.value))]
+        if not changes:
+            continue
+        guards = [y for y in ast.walk(st) if isinstance(y, ast.Call) and isinstance(y.func, ast.Attribute) and y.func.attr == "update_total_weight"]
+        rep.ob("RATE", bool(guards), "simple contagion: the loop `%s` that changes candidate sets re-sums a tiny residual total" % short(st, 50),
+               func=f, node=st, construct="loop %s: %d changes, %d guards" % (short(st, 40), len(changes), len(guards)),
+               detail="" if guards else "this loop removes / updates candidates and has no roundoff guard: on its path a total that "
+               "cancelled to ~1e-17 keeps the clock running on an empty or zero-weight candidate set")
     # weight tables keyed like the candidates
     wl = 0
     for c in walk_function(f.node):
